@@ -20,6 +20,8 @@ use std::collections::{BTreeMap, BTreeSet, HashMap, HashSet, VecDeque};
 enum Op {
     Opaque,
     Int(u8),
+    /// what ending a discarding capture pushes: an undefined nobody is meant to read
+    Nothing,
 }
 
 #[derive(Clone, Debug, PartialEq, Eq, Hash, PartialOrd, Ord)]
@@ -118,14 +120,21 @@ fn step(instrs: &Instructions<'_>, s: &AState) -> StepResult {
     let dyn_count = |ops: &mut Vec<Op>| -> Result<usize, StepResult> {
         match ops.pop() {
             Some(Op::Int(k)) => Ok(k as usize),
-            Some(Op::Opaque) => Err(StepResult::Unsupported(format!("{} with a dynamic count the abstraction does not know", name))),
+            Some(Op::Opaque) | Some(Op::Nothing) => Err(StepResult::Unsupported(format!("{} with a dynamic count the abstraction does not know", name))),
             None => Err(StepResult::Violation(Violation { clause: "operand_underflow", detail: format!("{} pops its count from an empty operand stack", name) })),
         }
     };
     match instr {
         Instruction::EmitRaw(_) | Instruction::Enclose(_) => {}
         Instruction::Emit | Instruction::StoreLocal(_) | Instruction::DiscardTop => pops!(1),
-        Instruction::Lookup(_) | Instruction::GetClosure | Instruction::PushDidNotIterate => push!(),
+        Instruction::Lookup(_) | Instruction::GetClosure => push!(),
+        // a recursion level returns to its call site from PopLoopFrame and never reaches the else
+        // branch that would consume the flag, so the flag is only pushed for ordinary loop frames
+        Instruction::PushDidNotIterate => {
+            if !matches!(n.frames.last(), Some(Fr::Loop { rec_return: Some(_), .. })) {
+                push!()
+            }
+        }
         Instruction::LoadConst(v) => n.ops.push(small_int(v).map_or(Op::Opaque, Op::Int)),
         Instruction::GetAttr(_) | Instruction::Neg | Instruction::Not | Instruction::IsUndefined | Instruction::ExportLocals => {
             pops!(1);
@@ -320,7 +329,8 @@ fn step(instrs: &Instructions<'_>, s: &AState) -> StepResult {
         }
         Instruction::BeginCapture(mode) => n.caps.push(if format!("{:?}", mode) == "Discard" { Cap::Discard } else { Cap::Capture }),
         Instruction::EndCapture => match n.caps.pop() {
-            Some(_) => push!(),
+            Some(Cap::Discard) => n.ops.push(Op::Nothing),
+            Some(Cap::Capture) => push!(),
             None => return StepResult::Violation(Violation { clause: "ends_foreign_capture", detail: format!("EndCapture at pc {} ends a capture this evaluation did not begin", s.pc) }),
         },
         Instruction::DupTop => match n.ops.last().copied() {
@@ -371,6 +381,13 @@ fn end_of_eval(s: &AState, at: &str) -> StepResult {
     }
     if s.ae != 0 {
         return StepResult::Violation(Violation { clause: "auto_escape_left_at_exit", detail: format!("{} at pc {} with {} auto-escape scope(s) open", at, s.pc, s.ae) });
+    }
+    // a stream that runs out has consumed everything it pushed (statements leave nothing behind); a
+    // stale operand means some path pushed a value nobody popped, and the next expression sees it
+    // (the undefined left by ending a discarding capture - a from-import statement does that - is
+    // never read and is not counted)
+    if at != "Return" && s.ops.iter().any(|o| *o != Op::Nothing) {
+        return StepResult::Violation(Violation { clause: "operands_left_at_exit", detail: format!("{} at pc {} with operands {:?} still on the stack", at, s.pc, s.ops) });
     }
     let mut e = s.clone();
     e.ended = true;
@@ -897,6 +914,13 @@ pub fn main(args: Args) -> i32 {
             "{% for a, b in m|items %}{% with q = a %}{% continue %}{% endwith %}{% endfor %}",
             "{% import 'inc' as i %}{% from 'inc' import x as y %}{% for q in xs %}{% include 'inc' %}{% break %}{% endfor %}",
             "{% for i in xs %}{% for j in xs %}{% with a = 1 %}{% with b = 2 %}{% break %}{% endwith %}{% endwith %}{% endfor %}{% with c = 3 %}{% continue %}{% endwith %}{% endfor %}",
+            // recursive loops with an else branch: a recursion level returns to its call site
+            "{% for x in tree recursive %}{{ x.v }}[{{ loop(x.c) }}]{% else %}E{% endfor %}",
+            "{% for x in tree recursive %}{{ 'a' ~ loop(x.c) ~ 'b' }}{% else %}E{% endfor %}{{ x }}",
+            "{% for x in tree recursive %}{% set r = loop(x.c) %}{{ r|length }}{% else %}E{% endfor %}",
+            "{% for x in tree recursive if x.v %}{% with q = loop(x.c) %}{{ q }}{% endwith %}{% else %}{% set z = 1 %}{% endfor %}",
+            "{% for x in tree recursive %}{% if x.c %}{{ [loop(x.c), loop(x.c)]|join }}{% endif %}{% else %}{% for y in xs %}{{ y }}{% else %}F{% endfor %}{% endfor %}",
+            "{% macro m(t) %}{% for x in t recursive %}{{ loop(x.c) }}{% else %}E{% endfor %}{% endmacro %}{{ m(tree) }}{{ m([]) }}",
         ];
         let mut l = Local::default();
         let mut res = ProgramResult { abstract_states: 0, transitions: 0, traces: 0 };
@@ -1070,7 +1094,7 @@ pub fn main(args: Args) -> i32 {
             level: "model_checking",
             tier: args.tier,
             seed: args.seed,
-            rule: format!("programs: the complete depth-1 space of G with blocks, includes and loop controls in three wrappings (plain + sentinel text, as the body of a child block under extends, as an included template), every {} program of the depth-2 space{} 11 hand-written shapes, the scope-contents family (6 scope-opening constructs alone and in pairs x 10 carriers that open no scope of their own - if/else arms, else bodies of empty and fully filtered loops, filter, autoescape, combinations - x 5 ways of binding a shadowing and a new name; after the construct the shadowed name must be back and the new one gone), and every way of leaving a loop by break / continue (unconditional and conditional) through every sequence of 1..{} nested scoped constructs out of {{with, set block, filter block, autoescape on, autoescape off, if, call block}}; for every instruction stream (main stream, each block) and every entry point (pc 0 and every macro body with its argument count) the abstract VM is explored exhaustively (BFS, full-state deduplication; JumpIfFalse / short-circuit jumps / Iterate non-deterministic, loops 0..2 iterations, loop recursion depth <= 3) and every state/transition is checked: PopFrame finds a with-frame and PopLoopFrame a loop-frame pushed by the same evaluation, EndCapture/PopAutoEscape pop something this evaluation pushed, no operand pop below the entry height, frames/captures/auto-escape balanced at every end, every reachable state can reach an end. Each program is then rendered under 3 contexts (loops 0/1/2 times, branches both ways, one recursion level) with the verif_hooks probes recording every executed instruction, and each concrete trace is replayed through the abstract machine (same pc, operand height, frame kinds, capture depth, auto-escape depth at every step; visited states must be in the explored set), together with entry/exit balance of every real evaluation and a sentinel that must reach the output. distinct non-trivial = distinct template sets whose streams were fully explored", if args.tier == Tier::Quick { "3rd" } else { "" }, if args.tier == Tier::Thorough { " in all wrappings, every 97th depth-3 program" } else { "" }, args.tier.pick(2, 3)),
+            rule: format!("programs: the complete depth-1 space of G with blocks, includes and loop controls in three wrappings (plain + sentinel text, as the body of a child block under extends, as an included template), every {} program of the depth-2 space{} 17 hand-written shapes, the scope-contents family (6 scope-opening constructs alone and in pairs x 10 carriers that open no scope of their own - if/else arms, else bodies of empty and fully filtered loops, filter, autoescape, combinations - x 5 ways of binding a shadowing and a new name; after the construct the shadowed name must be back and the new one gone), and every way of leaving a loop by break / continue (unconditional and conditional) through every sequence of 1..{} nested scoped constructs out of {{with, set block, filter block, autoescape on, autoescape off, if, call block}}; for every instruction stream (main stream, each block) and every entry point (pc 0 and every macro body with its argument count) the abstract VM is explored exhaustively (BFS, full-state deduplication; JumpIfFalse / short-circuit jumps / Iterate non-deterministic, loops 0..2 iterations, loop recursion depth <= 3) and every state/transition is checked: PopFrame finds a with-frame and PopLoopFrame a loop-frame pushed by the same evaluation, EndCapture/PopAutoEscape pop something this evaluation pushed, no operand pop below the entry height, frames/captures/auto-escape balanced and no operand left at every end, every reachable state can reach an end. Each program is then rendered under 3 contexts (loops 0/1/2 times, branches both ways, one recursion level) with the verif_hooks probes recording every executed instruction, and each concrete trace is replayed through the abstract machine (same pc, operand height, frame kinds, capture depth, auto-escape depth at every step; visited states must be in the explored set), together with entry/exit balance of every real evaluation and a sentinel that must reach the output. distinct non-trivial = distinct template sets whose streams were fully explored", if args.tier == Tier::Quick { "3rd" } else { "" }, if args.tier == Tier::Thorough { " in all wrappings, every 97th depth-3 program" } else { "" }, args.tier.pick(2, 3)),
             exhaustive: true,
             bound: json!({"max_loop_iterations": MAX_ITERS, "max_loop_recursion": MAX_REC}),
             assumptions: vec![
